@@ -1,8 +1,140 @@
-(** C04 — proofs (see props/C04.v for the statements) *)
-From Coq Require Import List NArith ZArith Bool Lia.
-From SK Require Import lib.Tok lib.LGraph model.C03_Model model.C04_Model.
+(** C04 — the property theorems (statements in props/C04.v): for a balanced pair written without hydrogen atoms
+    (implicit-hydrogen mode), the reaction's own template -- full ITS or centre, as it is or inverted -- makes the
+    identity a valid match on the own substrate, and gluing along it gives the reaction again. *)
+From Coq Require Import List NArith ZArith Bool Lia Permutation.
+From SK Require Import lib.Tok lib.LGraph model.C03_Model model.C04_Model proof.C03_Proof proof.C03_Glue proof.C03_Backward
+                       proof.C04_Glue proof.C04_Template.
 Import ListNotations.
 Local Open Scope Z_scope.
 
-Lemma id_map_fst ns : map fst (id_map ns) = ns.
-Proof. unfold id_map. rewrite map_map. simpl. apply map_id. Qed.
+Lemma h_to_implicit_host_noH A : no_explicit_H A = true -> h_to_implicit_host A = A.
+Proof.
+  intros NH. unfold h_to_implicit_host.
+  assert (E : h_nodes_h A = []).
+  { unfold h_nodes_h. rewrite (filter_nil (fun p : N * nattr => N.eqb (a_el (snd p)) EL_H) (gnodes A)); [reflexivity|].
+    intros p I. unfold no_explicit_H in NH. rewrite forallb_forall in NH. apply negb_true_iff. exact (NH p I). }
+  rewrite E. reflexivity.
+Qed.
+
+Section Final.
+  Variables (core invert : bool) (G H : hostg).
+  Hypothesis W : pair_wfb G H = true.
+  Hypothesis NH : no_explicit_H G = true.
+  Let A := if invert then H else G.
+  Let B := if invert then G else H.
+  Let T0 := its_construct G H.
+  Let tpl := template core invert G H.
+  Let PW : pair_wf G H := proj1 (pair_wfb_sound G H W).
+  Let CG : closed G := proj1 (proj2 (pair_wfb_sound G H W)).
+  Let CH : closed H := proj2 (proj2 (pair_wfb_sound G H W)).
+
+  Lemma NH_H : no_explicit_H H = true.
+  Proof.
+    unfold no_explicit_H. apply forallb_forall. intros [n y] I. simpl.
+    assert (Ey : label H n = Some y) by (apply label_in; [exact (wf_host_nodup H (pw_B _ _ PW))|exact I]).
+    destruct (in_ids_label G n (proj2 (pw_ids _ _ PW n) (label_some_in H n y Ey))) as [x Ex].
+    rewrite <- (pw_el _ _ PW n x y Ex Ey). apply negb_true_iff. exact (G_not_H G NH n x Ex).
+  Qed.
+  Lemma NH_A : no_explicit_H A = true.
+  Proof. unfold A. destruct invert; [exact NH_H|exact NH]. Qed.
+
+  Lemma mode_implicit : mode_E G H = false.
+  Proof. unfold mode_E. c03 (rc_no_explicit G H) as X. exact X. Qed.
+  Lemma consistent : consistent_H (its_construct G H) = true.
+  Proof. unfold consistent_H. c03 (rc_no_explicit G H) as X. rewrite X. reflexivity. Qed.
+
+  Lemma template_fits : fits A B tpl.
+  Proof.
+    c03 (rc_fits G H) as F1. c03 (construct_fits G H) as F2.
+    unfold A, B, tpl, template. destruct invert, core.
+    - apply invert_fits; [exact (pw_A _ _ PW)|exact (pw_B _ _ PW)|exact F1].
+    - apply invert_fits; [exact (pw_A _ _ PW)|exact (pw_B _ _ PW)|exact F2].
+    - exact F1.
+    - exact F2.
+  Qed.
+
+  Lemma template_describes : (core = true -> centre_carries (its_construct G H) = true) -> describes A B tpl.
+  Proof.
+    intros CC. c03 (rc_describes G H) as D1. c03 (construct_describes G H) as D2.
+    c03 (rc_edges_pos G H) as P1. c03 (T0_edges_pos G H) as P2.
+    unfold A, B, tpl, template. destruct invert, core.
+    - apply invert_describes; [exact (pw_A _ _ PW)|exact (pw_B _ _ PW)|exact (D1 (CC eq_refl))|exact P1].
+    - apply invert_describes; [exact (pw_A _ _ PW)|exact (pw_B _ _ PW)|exact D2|exact P2].
+    - exact (D1 (CC eq_refl)).
+    - exact D2.
+  Qed.
+
+  Lemma pair_AB : pair_wf A B.
+  Proof. unfold A, B. destruct invert; [apply pair_wf_sym|]; exact PW. Qed.
+
+  (** the rule the reactor builds: the template itself with its two sides *)
+  Lemma rule_is_template : rule_of core invert G H = Some (tpl, dec_side iG eG tpl, dec_side iH eH tpl).
+  Proof.
+    unfold rule_of. rewrite mode_implicit. fold tpl.
+    rewrite (synrule_implicit tpl (fits_nodupb A B tpl template_fits)). reflexivity.
+  Qed.
+
+  (** the matcher's pattern is the reactant side as it is (no hydrogen atom to fold) *)
+  Lemma left_no_H u : is_H_m (dec_side iG eG tpl) u = false.
+  Proof.
+    unfold is_H_m. rewrite dec_label. destruct (label tpl u) as [a|] eqn:E; [|reflexivity]. simpl.
+    destruct (f_nodes _ _ _ template_fits u a (assoc_in u (gnodes tpl) E)) as (x & y & Ex & _ & Sx & _).
+    unfold sel in Sx. inversion Sx as [[E1 E2 E3]]. rewrite E1. exact (G_not_H A NH_A u x Ex).
+  Qed.
+  Lemma pattern_is_left : pattern_of (dec_side iG eG tpl) = dec_side iG eG tpl.
+  Proof.
+    unfold pattern_of.
+    assert (E : has_XH (dec_side iG eG tpl) = false).
+    { unfold has_XH. destruct (existsb _ (gedges (dec_side iG eG tpl))) eqn:E; [|reflexivity]. exfalso.
+      apply existsb_exists in E. destruct E as ([[u v] o] & _ & Hx). rewrite !left_no_H in Hx. discriminate. }
+    rewrite E. reflexivity.
+  Qed.
+  Lemma substrate_is_A : substrate invert G H = A.
+  Proof. unfold substrate. fold A. apply h_to_implicit_host_noH. exact NH_A. Qed.
+  Lemma pattern_ids : node_ids (dec_side iG eG tpl) = node_ids tpl.
+  Proof. unfold node_ids. rewrite dec_gnodes, map_map. reflexivity. Qed.
+
+  (** C04_identity_match *)
+  Theorem identity_match :
+    exists rc l r, rule_of core invert G H = Some (rc, l, r) /\
+      match_okb (substrate invert G H) (pattern_of l) (id_map (node_ids (pattern_of l))) = true /\
+      match_rcb (substrate invert G H) rc (id_map (node_ids (pattern_of l))) = true.
+  Proof.
+    exists tpl, (dec_side iG eG tpl), (dec_side iH eH tpl). split; [exact rule_is_template|].
+    rewrite pattern_is_left, pattern_ids, substrate_is_A. split.
+    - exact (fits_match_pattern A B tpl template_fits).
+    - exact (fits_match_rc A B tpl template_fits).
+  Qed.
+
+  (** C04_identity_glue *)
+  Theorem identity_glue : (core = true -> centre_carries (its_construct G H) = true) ->
+    exists T, regenerate core invert G H = Some T /\ regen_exact T A B = true.
+  Proof.
+    intros CC. pose proof (template_describes CC) as D.
+    destruct (identity_glue_some A B tpl pair_AB D) as [T ET]. exists T.
+    unfold regenerate. rewrite rule_is_template, mode_implicit, pattern_is_left, pattern_ids, substrate_is_A. simpl.
+    rewrite ET. simpl. split; [reflexivity|]. exact (regen_exact_true A B tpl pair_AB D T ET).
+  Qed.
+
+  (** C04_in_results_partial: whatever the pruning keeps, if the identity is kept the reaction is among the ITS built *)
+  Theorem in_results_partial (kept : list mapping) : (core = true -> centre_carries (its_construct G H) = true) ->
+    In (identity core invert G H) kept ->
+    exists T, In (Some T) (its_list core invert G H kept) /\ regen_exact T A B = true.
+  Proof.
+    intros CC I. destruct (identity_glue CC) as (T & ET & ER). exists T. split; [|exact ER].
+    unfold its_list, identity, regenerate in *. rewrite rule_is_template in *.
+    apply in_map_iff. exists (id_map (node_ids (pattern_of (dec_side iG eG tpl)))). auto.
+  Qed.
+End Final.
+
+Lemma consistent_and_mode (G H : hostg) : pair_wfb G H = true -> no_explicit_H G = true ->
+  consistent_H (its_construct G H) = true /\ mode_E G H = false.
+Proof. intros W NH. split; [exact (consistent G H W NH)|exact (mode_implicit G H W NH)]. Qed.
+
+Lemma in_results_partial_all (core invert : bool) (G H : hostg) (kept : list mapping) :
+  pair_wfb G H = true -> no_explicit_H G = true ->
+  (core = true -> centre_carries (its_construct G H) = true) ->
+  In (identity core invert G H) kept ->
+  exists T : its, In (Some T) (its_list core invert G H kept) /\
+    regen_exact T (if invert then H else G) (if invert then G else H) = true.
+Proof. intros W NH. exact (in_results_partial core invert G H W NH kept). Qed.
